@@ -541,6 +541,8 @@ def register_pretty(type=None, predicate=None):
                 _DEFERRED_DISPATCH_BY_NAME[type] = fn
             else:
                 pretty_dispatch.register(type, partial(_run_pretty, fn))
+                # A direct registration supersedes a pending deferred one.
+                _DEFERRED_DISPATCH_BY_NAME.pop(get_deferred_key(type), None)
         else:
             assert callable(predicate)
             _PREDICATE_REGISTRY.append((predicate, fn))
@@ -560,34 +562,31 @@ def is_registered(
             'register_deferred may not be True when check_deferred is False'
         )
 
-    if type in pretty_dispatch.registry:
-        return True
-
     if check_deferred:
-        # Check deferred printers for the type exactly.
-        deferred_key = get_deferred_key(type)
-        if deferred_key in _DEFERRED_DISPATCH_BY_NAME:
-            if register_deferred:
-                deferred_dispatch = _DEFERRED_DISPATCH_BY_NAME.pop(
-                    deferred_key
-                )
-                register_pretty(type)(deferred_dispatch)
-            return True
-
-    if not check_superclasses:
-        return False
-
-    if check_deferred:
-        # Check deferred printers for supertypes.
-        for supertype in type.__mro__[1:]:
-            deferred_key = get_deferred_key(supertype)
+        # A pending deferred registration is always newer than the live
+        # entry for the same class, so it takes precedence. Every pending
+        # entry along the MRO is promoted, so that dispatch never depends
+        # on which other values were printed before.
+        found_deferred = False
+        candidates = type.__mro__ if check_superclasses else (type, )
+        for candidate in candidates:
+            deferred_key = get_deferred_key(candidate)
             if deferred_key in _DEFERRED_DISPATCH_BY_NAME:
+                found_deferred = True
                 if register_deferred:
                     deferred_dispatch = _DEFERRED_DISPATCH_BY_NAME.pop(
                         deferred_key
                     )
-                    register_pretty(supertype)(deferred_dispatch)
-                return True
+                    register_pretty(candidate)(deferred_dispatch)
+        if found_deferred:
+            return True
+
+    if type in pretty_dispatch.registry:
+        return True
+
+    if not check_superclasses:
+        return False
+
     return pretty_dispatch.dispatch(type) is not _BASE_DISPATCH
 
 
